@@ -79,9 +79,20 @@ Pro6 == <<Config(1, 1001, "A", CfgA), Create(2, 1002), Create(3, 1003), Create(4
           Line(14, 1014, 4, "PASS", <<"services=spw">>), Line(15, 1015, 4, "SERVER", <<"services.example", "1", "S">>),
           [Line(16, 1016, 4, "NICK", <<"B[ot]", "1", "1", "bo", "h", "s", "0", "+o", "B">>) EXCEPT !.hrid = 5],
           SLine(17, 1017, 4, "B[ot]", "JOIN", <<"#a">>)>>
-Prologue == <<Pro1, Pro2, Pro3, Pro4, Pro5, Pro6>>
+(* a GLINE-banned address: an operator banned the address of a user; every line that now arrives from that *)
+(* address closes its session (ProcessMessage records the new address before anything else), whatever the   *)
+(* command; plus a nickname made of the scandinavian characters only (no bracket)                          *)
+Pro7 == <<Config(1, 1001, "A", CfgA), Create(2, 1002), Create(3, 1003), Create(4, 1004), Create(5, 1005),
+          [Line(6, 1006, 2, "NICK", <<"alice">>) EXCEPT !.addr = "a2"], Line(7, 1007, 2, "USER", <<"ua", "0", "*", "A">>),
+          Line(8, 1008, 3, "NICK", <<"bob">>), Line(9, 1009, 3, "USER", <<"ub", "0", "*", "B">>),
+          Line(10, 1010, 4, "NICK", <<"fr\\ed">>), Line(11, 1011, 4, "USER", <<"uf", "0", "*", "F">>),
+          [Line(12, 1012, 5, "NICK", <<"dave">>) EXCEPT !.addr = "a1"], Line(13, 1013, 5, "USER", <<"ud", "0", "*", "D">>),
+          Line(14, 1014, 2, "OPER", <<"op", "pw">>),
+          Line(15, 1015, 2, "JOIN", <<"#a">>), Line(16, 1016, 3, "JOIN", <<"#a">>), Line(17, 1017, 4, "JOIN", <<"#a">>),
+          Line(18, 1018, 2, "GLINE", <<"dave", "spam">>)>>
+Prologue == <<Pro1, Pro2, Pro3, Pro4, Pro5, Pro6, Pro7>>
 
-NickArgs == {"alice", "Alice", "bob", "dave", "1bad"}
+NickArgs == {"alice", "Alice", "bob", "dave", "1bad", "FR|ED"}
 (* index of a pseudo-client spelling in the harness's table (harness/irc: vNickTable) *)
 NickIdx == ("NickServ" :> 1) @@ ("ChanServ" :> 2) @@ ("Bot" :> 3) @@ ("bot" :> 4) @@ ("B[ot]" :> 5) @@ ("b{ot}" :> 6)
            @@ ("OperServ" :> 7) @@ ("Global" :> 8) @@ ("b[ot]" :> 14) @@ ("B[OT]" :> 15)
